@@ -32,10 +32,21 @@ def apply_edits(root, edits):
     return None
 
 
+_SLOT = None
+
+
+def _init_worker(counter):
+    global _SLOT
+    with counter.get_lock():
+        _SLOT = counter.value
+        counter.value += 1
+
+
 def analyse_copy(root):
     """Extract facts of the scratch copy (not cached) and load them."""
     out = tempfile.mkdtemp(prefix='facts-', dir=os.path.dirname(root))
-    rc, log = facts.run_extractor(root, out, os.path.join(facts.CACHE, 'target-mut'))
+    tdir = 'target-mut' if _SLOT is None else 'target-mut-%d' % _SLOT
+    rc, log = facts.run_extractor(root, out, os.path.join(facts.CACHE, tdir))
     if rc != 0:
         return None, log[-3000:]
     prog = facts.Program(out)
@@ -43,6 +54,18 @@ def analyse_copy(root):
     prog.normalise(facts.anchor_names())
     prog.nfiles = 0
     return prog, None
+
+
+def _job(args):
+    import importlib
+    pid, path, base_keys, benign = args
+    mod = importlib.import_module('rules.' + pid.lower())
+    r = run_mutant(mod, pid, path, set(base_keys))
+    if benign:
+        if r['status'] in ('detected', 'MISSED'):
+            r['status'] = 'FALSE-ALARM' if r.get('new_findings') else 'quiet'
+        r['kind'] = 'benign'
+    return r
 
 
 def run_mutant(mod, pid, mutant_path, base_keys):
@@ -77,23 +100,22 @@ def run_mutant(mod, pid, mutant_path, base_keys):
 
 def run(chk, prog, mod):
     pid = chk.pid
-    base_keys = {f['key'] for f in chk.findings}
-    res = []
-    for mp in sorted(glob.glob(os.path.join(VERIF, 'selftest', 'mutants', pid, '*.json'))):
-        r = run_mutant(mod, pid, mp, base_keys)
-        res.append(r)
-        print('selftest %s %s: %s %s' % (pid, r['mutant'], r['status'], r.get('why', '') or r.get('new_findings', '')))
+    base_keys = sorted({f['key'] for f in chk.findings})
+    jobs = [(pid, mp, base_keys, False) for mp in sorted(glob.glob(os.path.join(VERIF, 'selftest', 'mutants', pid, '*.json')))]
     # behaviour-preserving variants: the rules must stay quiet on them
     for bp in sorted(glob.glob(os.path.join(VERIF, 'selftest', 'benign', '*.json'))):
         spec = json.load(open(bp))
-        if pid not in spec.get('props', [pid]):
-            continue
-        r = run_mutant(mod, pid, bp, base_keys)
-        if r['status'] == 'detected' or r['status'] == 'MISSED':
-            r['status'] = 'FALSE-ALARM' if r.get('new_findings') else 'quiet'
-        r['kind'] = 'benign'
-        res.append(r)
-        print('selftest %s benign %s: %s %s' % (pid, r['mutant'], r['status'], r.get('why', '') or r.get('new_findings', '')))
+        if pid in spec.get('props', [pid]):
+            jobs.append((pid, bp, base_keys, True))
+    import multiprocessing as mp_
+    nproc = max(1, min(int(os.environ.get('VERIF_JOBS', '6')), len(jobs) or 1))
+    counter = mp_.Value('i', 0)
+    res = []
+    with mp_.Pool(nproc, initializer=_init_worker, initargs=(counter,)) as pool:
+        for r in pool.imap(_job, jobs):
+            res.append(r)
+            print('selftest %s %s%s: %s %s' % (pid, 'benign ' if r.get('kind') == 'benign' else '', r['mutant'], r['status'],
+                                               r.get('why', '') or r.get('new_findings', '')))
     chk.sensitivity = res
     chk.extra_cov['selftest_mutants'] = sum(1 for r in res if r.get('kind') != 'benign')
     chk.extra_cov['selftest_detected'] = sum(1 for r in res if r['status'] == 'detected')
